@@ -6,6 +6,8 @@ CONSTANTS
  FaultSets <- NoFaults
  Checked = TRUE
  FlagFirst = FALSE
+ PipeCap = 99
+ JoinChecked = TRUE
 INVARIANT AtMostOnce
 INVARIANT ReturnedImpliesAll
 INVARIANT NoLossAtSet
